@@ -854,6 +854,16 @@ fn poolreal(args: &[&str]) -> String {
                         Err(_) => "stuck".to_string(),
                     }
                 }
+                'Q' => {
+                    // a request that fails LOCALLY, after it has its session and stream and before it has written anything:
+                    // a destination host name that does not fit the one-byte length of the address encoding
+                    let r = tokio::time::timeout(ms(8000), run.client.create_proxy_stream(("h".repeat(300), 80))).await;
+                    match r {
+                        Ok(Ok(_)) => "opened".to_string(),
+                        Ok(Err(_)) => "refused".to_string(),
+                        Err(_) => "stuck".to_string(),
+                    }
+                }
                 'b' => {
                     // n requests at once (they overlap: each is inside its TLS dial while the others start)
                     let mut hs = Vec::new();
